@@ -1283,6 +1283,12 @@ func (s *Store) GetRelatedAtTime(from *RelatedFrom, limit int) ([]qresult, *Rela
 
 				datasetID := binary.BigEndian.Uint32(k[36:])
 
+				// the row the previous page ended on may be gone (its dataset was deleted and collected, or a
+				// compaction removed it as a duplicate): the scan goes downwards, so the first row below it starts the page
+				if !hasReachedStartKey && len(from.RelationIndexFromKey) >= 40 && bytes.Compare(k[:40], from.RelationIndexFromKey[:40]) < 0 {
+					hasReachedStartKey = true
+				}
+
 				// no specified datasets means no restriction - all datasets are allowed
 				datasetIncluded := len(from.Datasets) == 0
 				if !datasetIncluded {
